@@ -111,6 +111,18 @@ theorem idxIn_append (as bs A B : List Nat) (ha : IdxIn as A) (hb : IdxIn bs B) 
       rw [List.cons_append, List.cons_append, idxIn_cons]
       exact ⟨ha.1, ih as ha.2⟩
 
+theorem flatPositionsC_eq {α : Type} (ranges : List Nat) (ncol : Nat) (es : List (List Nat × α))
+    (hv : ∀ e ∈ es, IdxIn e.1 ranges) (h32 : ∀ r ∈ ranges, r < 4294967296)
+    (hb : natProd ranges < 9223372036854775808) (hn0 : 0 < ncol) (hn : ncol < 18446744073709551616) :
+    flatPositionsC ranges ncol es
+      = .ok (es.map fun e => ((glamRowMajor ranges e.1 / ncol) * ncol + glamRowMajor ranges e.1 % ncol, e.2)) := by
+  induction es with
+  | nil => rfl
+  | cons e es ih =>
+    simp only [flatPositionsC, List.map_cons]
+    rw [flattenC_eq_nat ranges e.1 ncol (hv e (by simp)) h32 hb hn0 hn, ih (fun x hx => hv x (by simp [hx]))]
+    simp only [Int.toNat_natCast]
+
 theorem CRes.ok_inj {β : Type} {a b : β} (h : (CRes.ok a : CRes β) = CRes.ok b) : a = b := by
   cases h; rfl
 
